@@ -355,3 +355,7 @@ setitem = Contract('ManyToMany.__setitem__', setup=set_setup, requires=lambda c:
 CONTRACTS['ManyToMany.__setitem__'] = setitem
 CONTRACTS['ManyToMany.__contains__'] = Contract('ManyToMany.__contains__', inline=True)
 FUNCS.append('ManyToMany.__setitem__')
+
+for _c in CONTRACTS.values():
+    # identity of the internal dict/set objects is a proof device for callers (object-level frames), not part of the property
+    _c.aux = ('inv objects unchanged', 'only the set of key', 'the sets of the relation are')
